@@ -51,6 +51,9 @@ type cliRun struct {
 	exit           int
 }
 
+// opgenStdin, when not nil, is what the next opgen processes find on standard input
+var opgenStdin []byte
+
 func runOpgen(args []string) (cliRun, error) {
 	opgen := os.Getenv("VCHECK_OPGEN")
 	if opgen == "" {
@@ -59,6 +62,9 @@ func runOpgen(args []string) (cliRun, error) {
 	cmd := exec.Command(opgen, args...)
 	var so, se bytes.Buffer
 	cmd.Stdout, cmd.Stderr = &so, &se
+	if opgenStdin != nil { // a word-list "file" that is a pipe: --file=/dev/stdin
+		cmd.Stdin = bytes.NewReader(opgenStdin)
+	}
 	err := cmd.Run()
 	r := cliRun{stdout: so.String(), stderr: se.String()}
 	if ee, ok := err.(*exec.ExitError); ok {
@@ -378,6 +384,12 @@ func c17Words(c *Ctx, sample bool) {
 			os.WriteFile(path, []byte(strings.Join(input, sep)+"\n"), 0o644)
 		}
 		defer os.Remove(path)
+		if sep != "" && r.Chance(1, 5) { // the list arrives through a pipe: a path that is not a regular file
+			opgenStdin = []byte(strings.Join(input, sep) + "\n")
+			defer func() { opgenStdin = nil }()
+			path = "/dev/stdin"
+			c.Count("word_lists_read_from_a_pipe", 1)
+		}
 		args = append(args, "--file="+path)
 		listDesc = fmt.Sprintf("file %q", input)
 	}
